@@ -208,7 +208,6 @@ type symxBroker struct {
 
 func symxNewBroker(id uint64, logBase uint64) *symxBroker {
 	b := &symxBroker{id: id}
-	symxClockMs = 0
 	symxTick()
 	b.bq = &memberlist.TransmitLimitedQueue{RetransmitMult: 1, NumNodes: func() int { return 1 }}
 	b.state = distributed.NewState(id, b.bq, audit.NoneRecorder())
